@@ -440,7 +440,17 @@ func (u *Unit) intBinary(st *State, op token.Token, x, y Value, n ast.Node) Valu
 }
 
 // mulInt: product of two index integers.
-func (u *Unit) mulInt(a, b *Term) *Term { return Mul(a, b) }
+func (u *Unit) mulInt(a, b *Term) *Term {
+	if u.theory != "defined" {
+		_, la := isIntLit(a)
+		_, lb := isIntLit(b)
+		if !la && !lb {
+			// symbolic product: the opaque frame-index function (bi(a,0,b) = a*b)
+			return u.specBI(a, IntLit(0), b)
+		}
+	}
+	return Mul(a, b)
+}
 
 // ---- composite literals ---------------------------------------------------------------
 
